@@ -15,7 +15,9 @@
    and a pool thread popping one (root-queue internals), the futex wake, and the reservation on a width-1
    level (a plain read of dq_width).
    dispatch_apply_t records are told apart by address + incarnation (`a`); which apply call a record
-   belongs to is inferred: it is bound at the first access and must stay consistent. *)
+   belongs to is inferred: it is bound at the first access and must stay consistent.
+   The runner (tools/props/C10.py: prepare) recycles the identity `d` of a call that is completely over
+   and announces it with a `Free` record; TFree checks that the call really is over. *)
 EXTENDS Apply, Json, IOUtils, TLCExt
 
 Tr == ndJsonDeserialize(IOEnv.TRACE)
